@@ -743,7 +743,23 @@ pub fn gen_ops(rng: &mut Rng, keys: &[Vec<u8>], seps: &[Vec<u8>], n_ops: usize) 
         };
         ops.push(op);
     }
+    // `term_bounds_to_ord` on the bounds of every generated range (no further random draws, so the
+    // generated stream of the other operations is unchanged)
+    let tbo: Vec<String> = ops.iter().filter(|o| o.starts_with("rng:")).map(|o| {
+        let p: Vec<&str> = o.split(':').collect();
+        format!("tbo:{}:{}", p[1], p[2])
+    }).collect();
+    ops.extend(tbo);
     ops
+}
+
+fn show_ord_bound(b: &Bound<u64>) -> String {
+    let n = |o: &u64| if *o == u64::MAX { "max".to_string() } else { o.to_string() };
+    match b {
+        Bound::Unbounded => "u".into(),
+        Bound::Included(o) => format!("i{}", n(o)),
+        Bound::Excluded(o) => format!("e{}", n(o)),
+    }
 }
 
 fn show_hit(h: &TermOrdHit) -> String {
@@ -942,6 +958,34 @@ pub fn check_ops<T: SSTable>(ctx: &mut Ctx, codec: &Codec<T>, case: &DictCase, d
                     }
                 }
             }
+            "tbo" => {
+                let lo = Bnd::parse(parts[1]);
+                let hi = Bnd::parse(parts[2]);
+                let own = |b: &Bnd| -> Bound<Vec<u8>> {
+                    match b {
+                        Bnd::U => Bound::Unbounded,
+                        Bnd::I(k) => Bound::Included(k.clone()),
+                        Bnd::E(k) => Bound::Excluded(k.clone()),
+                    }
+                };
+                let real = match catch_unwind(AssertUnwindSafe(|| dict.term_bounds_to_ord(own(&lo), own(&hi)))) {
+                    Ok(Ok(r)) => r,
+                    _ => {
+                        bad(ctx, "oracle", "C15:term-bounds-to-ord-panics", "term_bounds_to_ord panicked or failed".into());
+                        continue;
+                    }
+                };
+                // oracle: the ordinal bounds select exactly the ordinals whose keys are within the key bounds
+                let in_lo = |i: u64| match real.0 { Bound::Unbounded => true, Bound::Included(o) => o <= i, Bound::Excluded(o) => o < i };
+                let in_hi = |i: u64| match real.1 { Bound::Unbounded => true, Bound::Included(o) => i <= o, Bound::Excluded(o) => i < o };
+                let wrong = sorted.iter().enumerate().find(|(i, e)| (in_lo(*i as u64) && in_hi(*i as u64)) != (lo.lo_ok(e.0) && hi.hi_ok(e.0)));
+                let shown = format!("{},{}", show_ord_bound(&real.0), show_ord_bound(&real.1));
+                if let Some((i, _)) = wrong {
+                    bad(ctx, "oracle", "C15:term-bounds-to-ord-wrong", format!("term_bounds_to_ord = {shown}: ordinal {i} is selected differently from its key"));
+                } else if shown != model {
+                    bad(ctx, "model", "C15:term-bounds-to-ord-model", format!("real {shown} model {model}"));
+                }
+            }
             "blk" => {
                 let k = unhex(parts[1]).unwrap();
                 let real = dict.sstable_index.get_block_with_key(&k).map(|b| b.first_ordinal.to_string()).unwrap_or("none".into());
@@ -1038,6 +1082,12 @@ pub fn check_ops<T: SSTable>(ctx: &mut Ctx, codec: &Codec<T>, case: &DictCase, d
                 }
             }
             "aut" => {
+                // third answer part: the model streamer run on the front-coded entries with the
+                // automaton state stack (what `Streamer::advance` does); it is the one compared
+                let model = halves.get(2).copied().unwrap_or(model);
+                if halves.len() >= 3 {
+                    ctx.report.count("aut:state-stack-model-compared");
+                }
                 let aspec = match AutSpec::parse(parts[1]) {
                     Some(a) => a,
                     None => continue,
@@ -1167,6 +1217,7 @@ pub fn run(ctx: &mut Ctx) {
         "writer acceptance / rejection index = model writer (insert_key assert + find_shorter assert)".into(),
         "cross-decoding: Lean decodes real sstable files (void/u64/range, uncompressed blocks); real Reader decodes Lean-encoded blocks; block bytes equal".into(),
         "sstable merge and columnar merge = Lean mergeSpec = Lean k-way merge incl. ordinal tables".into(),
+        "BitPacker::write/flush bytes = Lean bitPack (the packer of the block-address store)".into(),
         "block-address store: Lean decodes the bit-packed index of real files (addresses of every block, ordinal → block search); real routing returns the same addresses".into(),
         "tantivy::termdict (fst backend) and columnar dictionary obey the same ordered-map spec".into(),
     ];
@@ -1176,24 +1227,28 @@ pub fn run(ctx: &mut Ctx) {
     }
     let mut rng = ctx.rng.fork();
     other::corpus(ctx);
-    let dicts = ctx.budget(700, 12000);
+    let dicts = ctx.budget(700, 3000);
     for _ in 0..dicts {
         one_dictionary(ctx, &mut rng, 40);
     }
-    let seqs = ctx.budget(1000, 20000);
+    let seqs = ctx.budget(1000, 8000);
     for _ in 0..seqs {
         other::insertion_order(ctx, &mut rng);
     }
-    let merges = ctx.budget(300, 6000);
+    let merges = ctx.budget(300, 3000);
     for _ in 0..merges {
         other::merges(ctx, &mut rng);
     }
-    let fsts = ctx.budget(150, 3000);
+    let fsts = ctx.budget(150, 1200);
     for _ in 0..fsts {
         other::fst_termdict(ctx, &mut rng);
     }
-    let cols = ctx.budget(80, 1500);
+    let cols = ctx.budget(80, 600);
     for _ in 0..cols {
         other::columnar(ctx, &mut rng);
+    }
+    let packs = ctx.budget(300, 3000);
+    for _ in 0..packs {
+        other::bitpacker(ctx, &mut rng);
     }
 }
